@@ -527,6 +527,11 @@ func (x *pathCtx) violation(kind, msg, knownID string, extra *Term, stack string
 		}
 	}
 	r, model, note := x.solver.Check(ex, x.ex.opts.AssertTimeout, true)
+	if r == Unsat && extra == nil {
+		// the path condition itself is unsatisfiable (an earlier feasibility
+		// query had timed out and the branch was kept): not a violation
+		panic(abortPath{"infeasible path"})
+	}
 	if r != Sat {
 		x.ex.noteInconclusive(fmt.Sprintf("model for violation %q: %v %s", msg, r, note))
 		return
